@@ -633,3 +633,13 @@ Section NestedFacts.
       apply (Hx d Hcx Hsx).
   Qed.
 End NestedFacts.
+
+(* ------------------------------------------------------------------ *)
+(* positions of one shape are resolved independently                    *)
+Theorem shape_positions : forall co ps,
+  Forall (fun p => coherent (fst p) (snd p) /\ none_safe (fst p) (snd p) = true /\ no_shadow (fst p) (snd p) = true) ps ->
+  shape_run (union_dec co) ps = shape_run (ref_union co) ps.
+Proof.
+  intros co ps H; induction H as [|[ms d] r [Hc [Hn Hs]] _ IH]; simpl; [reflexivity|].
+  simpl in *. rewrite (union_decode_partial co ms d Hc Hn Hs), IH. reflexivity.
+Qed.
